@@ -134,7 +134,7 @@ def run(ctx):
         ctx.case(('history', tuple(A), str(hist)), True, sample=dict(op='history', N=n, steps=[h if isinstance(h, str) else h[0] for h in hist]))
     # z2inv kernel
     for _ in range(ctx.budget(200, 3000)):
-        n = rng.choice([1, 2, 3, 4, 6, 8, 12])
+        n = rng.choice([1, 2, 3, 4, 6, 8, 12]) if rng.random() < 0.9 else rng.choice([31, 32, 33, 34, 40, 63, 64, 65, 66, 70])   # machine-word boundaries too
         mat = np.array([[rng.randrange(2) for _ in range(n)] for _ in range(n)], dtype=np.int_)
         if rng.random() < 0.5:  # force invertible: product of elementary operations on identity
             mat = np.eye(n, dtype=np.int_)
@@ -163,3 +163,22 @@ def run(ctx):
                 ctx.fail('z2inv', 'invertible matrix rejected', dict(mat=mat.tolist(), got=got))
             elif (O.gf2_matmul(got, mat) != np.eye(n, dtype=int)).any() or (O.gf2_matmul(mat, got) != np.eye(n, dtype=int)).any():
                 ctx.fail('z2inv', 'result is not the GF(2) inverse', dict(mat=mat.tolist(), got=got))
+    # inverse of valid maps on wide registers (2N and 4N beyond 64)
+    for _ in range(ctx.budget(6, 40)):
+        n = rng.choice([16, 17, 20, 33])
+        small = G.rand_map_ops(rng, 3)
+        pos = sorted(rng.sample(range(n), 3))
+        big = H.embed_ops(small, pos, n) if hasattr(H, 'embed_ops') else None
+        if big is None:
+            break
+        big = [(l, (k + 2 * rng.randrange(2)) % 4) for l, k in big]
+        try:
+            inv = impl.ops_of(impl.cmap(big).inverse())
+        except Exception as e:
+            ctx.fail('CliffordMap.inverse', 'implementation raised %r on a valid map of %d qubits' % (e, n), dict(N=n, small=small, pos=pos)); continue
+        ctx.q('inverse', 'inverse %s' % H.erows_ops(big), inv, lambda s_: H.drows_ops(s_.split(' ')[1]) if s_.startswith('ok ') else s_)
+        ctx.case(('wide-inverse', n, tuple(small), tuple(pos)), True, sample=dict(op='inverse', N=n, support=pos))
+        ctx.count('wide-inverse')
+        probes = G.id_map_ops(n)
+        if [H.map_apply(inv, H.map_apply(big, P)) for P in probes] != probes or [H.map_apply(big, H.map_apply(inv, P)) for P in probes] != probes:
+            ctx.fail('CliffordMap.inverse', 'inverse of a valid map on %d qubits is not a two-sided inverse' % n, dict(N=n, small=small, pos=pos))
